@@ -226,7 +226,7 @@ func c32Build(h *H) c32Setup {
 }
 
 func streamC32(h *H) {
-	n := h.N(8, 160)
+	n := h.N(8, 64)
 	for i := 0; i < n; i++ {
 		c32Case(h, c32Build(h))
 	}
